@@ -14,7 +14,7 @@ PROPS = ("C12",)
 
 def plan(tier, seed):
     specs = ec.plan_e2e(seed, 12, MIX, 160 if tier == "quick" else 1600, nwcap=12 if tier == "quick" else 24)
-    if tier == \"thorough\":
+    if tier == "thorough":
         specs += ec.fixture_specs()
     return specs
 
